@@ -122,6 +122,9 @@ def evaluate(chk, jobs, res, prop):
         if "graph_error" in r:
             ge = r["graph_error"]
             if "no nodes in the partition" in ge or "has no ancestors" in ge: chk.feat("rejected:supervisor-without-ancestors"); continue
+            # the same degenerate input whatever the supergraph mode says about it: the supervisor receives nothing, so with pruning its partitions hold no
+            # other vertex ("No new nodes have been matched" in topological mode)
+            if j["prune"] and not any(c["in"] == cfg["sup"] for c in cfg["conns"].values()): chk.feat("rejected:supervisor-without-ancestors"); continue
             # the recorded/generated horizon is too short for the supervisor to have a single vertex: there is no partition to schedule, and
             # supergraph says so with an explicit assertion - a rejected degenerate input, outside the property's domain
             if "No leaf nodes of kind" in ge: chk.feat("rejected:no-supervisor-vertex"); continue
